@@ -8,7 +8,13 @@
    exactly as in the initial heap. *)
 From Coq Require Import String.
 From Coq Require Import List NArith ZArith Bool Lia.
-From NB Require Import Base.Res Base.Json Base.PyStr Diff.DiffFormat Diff.Patch Diff.Codec Diff.Store.
+From NB Require Import Base.Res.
+From NB Require Import Base.Json.
+From NB Require Import Base.PyStr.
+From NB Require Import Diff.DiffFormat.
+From NB Require Import Diff.Patch.
+From NB Require Import Diff.Codec.
+From NB Require Import Diff.Store.
 Import ListNotations.
 
 (* ------------------------------------------------------------------ heaps *)
